@@ -673,6 +673,8 @@ impl Property for C12 {
                     }
                 }
                 RunOut::Value(v) => {
+                    let (vi, vs) = v.as_bigint_and_exponent();
+                    obs.digest(&[vs as u64, vi.bits(), vi.iter_u64_digits().next().unwrap_or(0), vi.iter_u64_digits().last().unwrap_or(0)]);
                     let f = self.judge(t, &env, p, mode, &xr, &exact, &v, obs);
                     outcome = f.is_some() as u64;
                     if admissible {
